@@ -204,6 +204,8 @@ class Config:
         # model 3 is the 'perfect surrogate': the system's own equations
         # handed over as a model (still model mode: nothing is recorded)
         self.eqs = {0: sm.equations, 1: m1, 2: m2, 3: sm.equations}
+        self.peek_ok = True
+        self.probing = False
         self.val = {}
         self.sc = {}
         self.df = {}
@@ -318,6 +320,19 @@ def get_config(name):
         c = Config(*name)
         c.build_model()
         _CFG[name] = c
+        # Is the recorded data still kept where peek() looks? Decided once,
+        # before any exploration, by comparing peek() with the public
+        # get_differentials() on short histories.
+        c.probing = True
+        probe = [h for d in (1, 2) for h in itertools.product(OPS, repeat=d)]
+        probe += [(("ev", 0), ("diff",), a) for a in OPS]
+        probe += [(("ev", 0), ("diff",), ("init",), ("ev", 0)),
+                  (("ev", 0), ("diff",), ("ev", 0), ("diff",))]
+        for h in probe:
+            if not c.peek_ok:
+                break
+            drive(c, h)
+        c.probing = False
     return _CFG[name]
 
 
@@ -345,6 +360,55 @@ def peek(obj):
     return (sum(len(x) for x in a),
             b"".join(np.asarray(x, float).tobytes() for x in a),
             b"".join(np.asarray(x, float).tobytes() for x in b))
+
+
+def confirm_data(cfg, history, exp):
+    """
+    Does get_differentials() after `history` on a fresh object return exp?
+
+    Used when the peek at the private lists disagrees with the model: only
+    the public observation decides.
+    """
+    saved = cfg.peek_ok
+    cfg.peek_ok = False
+    try:
+        obj = cfg.fresh()
+        orig_init = obj.initialize
+        st = INIT
+        for op in history:
+            op = tuple(op)
+            try:
+                if op[0] == "ev":
+                    cfg.reset_calls()
+                    obj.evaluate(cfg.xs[op[1]].copy())
+                elif op[0] == "init":
+                    obj.initialize()
+                elif op[0] == "model":
+                    obj.set_model(cfg.eqs[op[1]])
+                elif op[0] == "raw":
+                    obj.set_raw()
+                elif op[0] == "patch":
+                    setattr(obj, "initialize", orig_init if st[1] else _nop)
+                elif op[0] == "diff":
+                    try:
+                        obj.get_differentials()
+                    except ValueError:
+                        pass
+            except Exception:  # noqa
+                return False
+            st = model_step(st, op)
+        try:
+            sc, df = obj.get_differentials()
+            sc = np.asarray(sc, float)
+            df = np.asarray(df, float)
+            got = (len(sc), sc.tobytes(), df.tobytes())
+        except ValueError:
+            got = (0, b"", b"")
+        except Exception:  # noqa
+            return False
+        return got == tuple(exp)
+    finally:
+        cfg.peek_ok = saved
 
 
 def drive(cfg, history):
@@ -428,7 +492,20 @@ def drive(cfg, history):
             probs.append((f"{vname}|{op[0]}|raises {type(e).__name__} "
                           f"({mname} mode)", f"step {i} {opname(op)}: {e!r}"))
             return steps, probs, nev
-        pk = peek(obj)
+        pk = peek(obj) if cfg.peek_ok else None
+        if pk is not None:
+            exp = cfg.expected_data(nxt[2])
+            if pk != exp and confirm_data(cfg, history[:i + 1], exp):
+                # the private lists are no longer where the data lives (the
+                # public get_differentials() of a replayed object returns
+                # what is expected): stop looking at them
+                if not cfg.probing:
+                    raise HarnessError(
+                        "the private data lists disagree with "
+                        "get_differentials() only after "
+                        f"{hname(history[:i + 1])}: not found by the probe")
+                cfg.peek_ok = False
+                pk = None
         if pk is not None:
             exp = cfg.expected_data(nxt[2])
             if pk != exp:
@@ -470,6 +547,7 @@ def quick_job(a):
             if sig not in seen:
                 seen.add(sig)
                 out["viol"].append((sig, text, list(h)))
+    out["peek"] = cfg.peek_ok
     return out
 
 
@@ -511,6 +589,7 @@ def thorough_job(a):
                             "mode and recorded evaluations) "
                             f"{opname(op)} is observed differently",
                             list(hs[-1]) + [op]))
+    out["peek"] = cfg.peek_ok
     return out
 
 
@@ -757,6 +836,11 @@ def run(ctx: Ctx) -> None:
         observers = [o for o in OPS if o[0] in ("ev", "diff")]
         hs += [h + (o,) for h in itertools.product(quiet_ops, repeat=3)
                for o in observers]
+        # and every history of four operations that starts with a recorded
+        # evaluation (complete / cut short by a failure) whose data is
+        # fetched (consolidated) at once
+        hs += [(e, ("diff",), a, b) for e in (("ev", 0), ("ev", 3))
+               for a in OPS for b in OPS]
         jobs = [(name, ch) for name in configs
                 for ch in chunks(hs, max(1, ctx.jobs * 2 // len(configs)
                                          + 1))]
@@ -835,6 +919,11 @@ def run(ctx: Ctx) -> None:
                      keys_expanded=len(items), key_op_transitions=tr,
                      transitions_from_several_histories=sum(
                          o["twice"] for o in mine), max_depth=depth)
+    if not all(o.get("peek", True) for o in outs):
+        ctx.cap("the recorded data is no longer kept in the private lists "
+                "the harness looks at after every operation (the public "
+                "get_differentials() confirmed the expected data): data is "
+                "only observed through get_differentials() operations")
     # the model-training objective on the same recorded data
     mo_cfgs = [CONFIGS[0], CONFIGS[3], CONFIGS[5], CONFIGS[8]] \
         if ctx.quick else CONFIGS
